@@ -62,9 +62,6 @@ MUTANTS = [
      ['C05']),
     ('recompute_inverses_every_step', 'kfac/base_preconditioner.py',
      'if self.steps % self.inv_update_steps == 0:', 'if True:', ['C05']),
-    ('forget_mini_steps_reset', 'kfac/base_preconditioner.py',
-     '        self._steps += 1\n        self._mini_steps = defaultdict(int)',
-     '        self._steps += 1', ['C04', 'C05']),
     ('broadcast_a_inv_from_g_worker', 'kfac/base_preconditioner.py',
      "                    layer.broadcast_a_inv(\n"
      "                        src=self._assignment.inv_worker(name, 'A'),\n"
@@ -144,7 +141,7 @@ MUTANTS = [
      'vg_sum += (v1 * w * self.lr).sum().item()', ['C07']),
     ('hybrid_broadcast_to_world', 'kfac/assignment.py',
      '        return self._grad_worker_groups[layer].group\n',
-     '        return None\n', ['C13']),
+     '        return None\n', ['C03']),
     ('every_rank_computes_inverse', 'kfac/base_preconditioner.py',
      "                if get_rank() == self._assignment.inv_worker(name, "
      "'A'):\n                    layer.compute_a_inv(damping=self.damping)"
